@@ -101,6 +101,13 @@ Theorem C11_expand_total_call_by_name_partial tb rank bound t :
 Proof. intros NR. exact (expand_total_call_by_name tb rank NR bound t). Qed.
 Print Assumptions C11_expand_total_call_by_name_partial.
 
+(* for a sequence of the file (no parameter references) `subst ANil t` is t itself *)
+Theorem C11_expand_total_cbn_file_partial tb rank bound t :
+  nonrec tb rank -> okt tb rank bound t -> pfree t ->
+  exists o, exp tb (S (enough tb [] (tsize t))) [] [] t = Some o /\ CBN tb t o.
+Proof. exact (expand_total_cbn_file tb rank bound t). Qed.
+Print Assumptions C11_expand_total_cbn_file_partial.
+
 Example C11_expand_premises : nonrec tb_ex rank_ex /\ okt tb_ex rank_ex 2 use_ex.
 Proof. exact (conj nonrec_ex okt_ex). Qed.
 
